@@ -1,5 +1,6 @@
 import Pocket.Src.Layout
 import Pocket.Model.Event
+import Pocket.Model.Filter
 /- What the source says NOW about the binary layout of an event (`Pocket/Src/Layout.lean`: the contiguous writes of
 `Event::from_parts`, `output_size_needed`, and the offsets the accessors read at, translated from event.rs on every check
 run) against the model's encoder and decoder, which the round-trip, canonical-form and read-back theorems are about.
@@ -46,5 +47,17 @@ def eventDecodeAt (r : List Nat) (b : Bytes) : Outcome EventRec :=
 theorem event_readers_from_source (b : Bytes) : eventDecodeAt Src.evReads b = eventDecode b := by
   unfold Src.evReads eventDecodeAt eventDecode
   rfl
+
+/-- the fixed header of a binary filter as `Filter::from_parts` writes it today is the head of the model's encoding; an absent
+limit / since / until is written as `u32::MAX` / `0` / `u64::MAX` - the values the model (and the JSON parser) take for "absent" -/
+theorem filter_header_from_source (ids authors : List Bytes) (kinds : List Nat) (tagBytes : Bytes) (since «until» limit : Nat) :
+    encodeFilterWith ids authors kinds tagBytes since «until» limit =
+      Src.filterHeader (filterSize ids.length authors.length kinds.length tagBytes.length) ids.length authors.length kinds.length
+        (some limit) (some since) (some «until») ++ (flat32 ids ++ flat32 authors ++ flatKinds kinds ++ tagBytes) := by
+  simp [encodeFilterWith, Src.filterHeader, List.append_assoc]
+
+theorem filter_defaults_from_source (size a b c : Nat) :
+    Src.filterHeader size a b c none none none = Src.filterHeader size a b c (some U32MAX) (some 0) (some U64MAX) := by
+  simp [Src.filterHeader, U32MAX, U64MAX]
 
 end Pocket
